@@ -1,5 +1,5 @@
 (** C05 - The server never overbooks a worker and only places tasks where they can run. *)
-From HQ Require Import Base.Prelude Cluster.Types Cluster.Core Cluster.Reactor Cluster.Worker Cluster.Server Cluster.Sys Cluster.Monitors Cluster.ProofsJob Cluster.ProofsCore Cluster.ProofsMore.
+From HQ Require Import Base.Prelude Cluster.Types Cluster.Core Cluster.Reactor Cluster.Worker Cluster.Server Cluster.Sys Cluster.Monitors Cluster.ProofsJob Cluster.ProofsCore Cluster.ProofsMore Cluster.BijFinal Cluster.RejHyp Cluster.InvWFinal.
 From Coq Require Import ZArith.
 Local Open Scope N_scope.
 From HQ Require Sched.Model Sched.ProofsRows.
@@ -31,6 +31,28 @@ Theorem C05_feasible_no_overbook : forall I bs m s d,
     /\ (forall rq, In rq (SP.rqs_on I d (SM.w_id w)) -> SM.placeable I w rq = true).
 Proof. exact HQ.Sched.ProofsRows.C05_feasible_no_overbook_thm. Qed.
 
+(** The server-side worker bookkeeping agrees with the task states in EVERY reachable state: every
+    id in a worker's assigned / prefilled set is a task placed there, and conversely every placed
+    task is in exactly the set its state names; a multi-node task's workers are reserved for it
+    ([Mn t]: such a worker has no single-node set at all, it runs nothing else).
+    Hypotheses: [op_wf] (entries as many as explicit ids) and the executable channel / solver-answer
+    hypothesis [run_fresh] of RejHyp.v (monitored on every explored history). *)
+Theorem C05_worker_sets_invariant : forall ops reserve maxfill s outs,
+  Forall op_wf ops -> run_fresh (init_sys reserve maxfill) ops = true -> run (init_sys reserve maxfill) ops = Ok (s, outs) ->
+  let c := s_core s in
+  forallb (worker_sets_ok c) (c_workers c) = true /\
+  (forall t, In t (c_tasks c) ->
+     match t_state t with
+     | Assigned w _ | Running w _ => (exists wk a p f, find_worker (c_workers c) w = Some wk /\ w_assign wk = Sn a p f /\ tid_mem (t_id t) a = true)
+     | Prefilled w => (exists wk a p f, find_worker (c_workers c) w = Some wk /\ w_assign wk = Sn a p f /\ tid_mem (t_id t) p = true)
+     | Retracting _ => forall target rv, find_redirect (c_redirects c) (t_id t) = Some (target, rv) ->
+                         exists wk a p f, find_worker (c_workers c) target = Some wk /\ w_assign wk = Sn a p f /\ tid_mem (t_id t) a = true
+     | RunningMN ws => forall w, In w ws -> exists wk root, find_worker (c_workers c) w = Some wk /\ w_assign wk = Mn (t_id t) root
+     | _ => True
+     end).
+Proof. exact worker_sets_invariant. Qed.
+
+Print Assumptions C05_worker_sets_invariant.
 Print Assumptions C05_reservation_roundtrip.
 Print Assumptions C05_mn_only_on_free_workers.
 Print Assumptions C05_feasible_no_overbook.
